@@ -357,8 +357,11 @@ def neverPosted : List (String × String) := []
 
 /-! ## 5. The getter table (`NotifGetters.lean`) against the sources and the catalogue -/
 
-def isOldKey (k : String) : Bool := k.startsWith "old"
-def isNewKey (k : String) : Bool := k.startsWith "new"
+/-- the data keys under which defcon hands over old and new values (the extractor refuses any other key that
+starts with `old` / `new`: `harness/extract_notif.py`, "unrecognised old/new payload key") -/
+def valueKeys : List String := ["oldValue", "newValue", "oldName", "newName", "oldColor", "newColor"]
+
+def isValueKey (k : String) : Bool := decide (k ∈ valueKeys)
 
 /-- posting statements that hand over somebody else's data instead of building a dict: `Image.ColorChanged`
 re-posted from the layer's colour change (recorded finding F44) -/
@@ -378,10 +381,10 @@ def siteNames (t : Tables) (s : PostSite) : List String :=
   | .attr a => (t.classes.filter (fun c => decide (s.cls ∈ t.mro 8 c.name))).filterMap (fun c => t.attrValue c.name a)
 
 /-- the data keys of a posting statement are the ones the getter table says: its old and new key are there, no
-other key starts with `old` / `new`, and the key that names the item is there -/
+other old / new value key is, and the key that names the item is there -/
 def keysOk (g : Getter) (ks : List String) : Bool :=
   decide (g.oldKey ∈ ks) && decide (g.newKey ∈ ks) &&
-  ks.all (fun k => (!isOldKey k || k == g.oldKey) && (!isNewKey k || k == g.newKey)) &&
+  ks.all (fun k => !isValueKey k || k == g.oldKey || k == g.newKey) &&
   (match g.item with
    | some i => decide (i ∈ ks)
    | none => true)
@@ -390,7 +393,7 @@ def siteOk (t : Tables) (s : PostSite) : Bool :=
   (siteNames t s).all fun n =>
     match getterOf n, s.keys with
     | some g, some ks => keysOk g ks
-    | none, some ks => !(ks.any (fun k => isOldKey k || isNewKey k)) || decide (n ∈ outsideTable)
+    | none, some ks => !(ks.any isValueKey) || decide (n ∈ outsideTable)
     | _, none => decide ((s.cls, s.method) ∈ forwardedSites)
 
 /-- no dead rows: every notification of the getter table is posted by some statement of the sources -/
